@@ -23,7 +23,24 @@ ASSUMPTIONS = ["input_iterator yields (name, length, record) for every record of
 
 
 def input_loop(ctx, run):
-    loops = [n for n in walk_function(run.node) if isinstance(n, ast.For) and isinstance(n.iter, ast.Call) and u(n.iter.func) == "input_iterator" and isinstance(n.target, ast.Tuple) and len(n.target.elts) == 3]
+    # the loop over what initialize_io_files hands back as second value: the iterator function applied to the reader, or the
+    # iterator it already made from the reader
+    def _from_io(name):
+        ds = util.assignments_to(run.node, name)
+        return len(ds) == 1 and isinstance(ds[0][1], tuple) and ds[0][1][0] == "unpack" and isinstance(ds[0][1][1], ast.Call) and u(ds[0][1][1].func) == "initialize_io_files" and ds[0][1][2] == 1
+
+    loops = []
+    for n in walk_function(run.node):
+        if not (isinstance(n, ast.For) and isinstance(n.target, ast.Tuple) and len(n.target.elts) == 3):
+            continue
+        if isinstance(n.iter, ast.Call) and isinstance(n.iter.func, ast.Name) and _from_io(n.iter.func.id):
+            loops.append(n)
+        elif isinstance(n.iter, ast.Name) and _from_io(n.iter.id):
+            io = ctx.func("whatshap.cli.split.initialize_io_files")
+            rets = [r for r in walk_function(io.node) if isinstance(r, ast.Return) and isinstance(r.value, ast.Tuple) and len(r.value.elts) == 3]
+            made = len(rets) == 1 and isinstance(rets[0].value.elts[1], ast.Name) and all(isinstance(v_, ast.Call) and u(v_.func) in ("_bam_iterator", "_fastq_string_iterator") and [u(a_) for a_ in v_.args] == [u(rets[0].value.elts[0])] for s_, v_ in util.assignments_to(io.node, rets[0].value.elts[1].id))
+            if made:
+                loops.append(n)
     ctx.require(len(loops) == 1, "input loop `for name, length, record in input_iterator(...)` not found in run_split")
     return loops[0]
 
@@ -56,6 +73,14 @@ def _fanout_index(w, wl=None):
     if not isinstance(par, ast.For):
         return None
     it = par.iter
+    if isinstance(it, ast.Name):
+        # a local that holds the slice (taken once; the list it is taken from is not rebuilt afterwards)
+        fn = par
+        while fn is not None and not isinstance(fn, (ast.FunctionDef, ast.AsyncFunctionDef)):
+            fn = getattr(fn, "parent", None)
+        d_ = util.single_def(fn, it.id) if fn is not None else None
+        if isinstance(d_, ast.Subscript) and isinstance(d_.slice, ast.Slice) and isinstance(d_.value, ast.Name) and len(util.assignments_to(fn, d_.value.id)) == 1:
+            it = d_
     recv = w.func.value
     if isinstance(it, ast.Call) and u(it.func) == "enumerate" and isinstance(par.target, ast.Tuple) and len(par.target.elts) == 2 and u(par.target.elts[1]) == u(recv):
         start = it.args[1] if len(it.args) > 1 else None
@@ -387,6 +412,30 @@ def r3(ctx):
             before = all(cfg.find_path(s, wn, avoid_nodes=incs | {scope_head}) is None for s in cfg.succ(scope_head, "loop"))
             after = cfg.find_path(wn, scope_head, avoid_nodes=incs) is None
             ok = before or after
+        if not ok and j is None and _nearest_for(w) is not loop:
+            # the copies and their counts in two loops over the same positions of the two parallel lists:
+            #   for x in W[k:]: x.write(r)        for h in histogram_data[k:]: h[length] += 1
+            fx = _fanout_index(w)
+            par = _nearest_for(w)
+            blk = getattr(par, "parent", None)
+            sibs = [x for f_ in ("body", "orelse") for x in (getattr(blk, f_, None) or []) if isinstance(x, ast.For) and x is not par] if blk is not None and any(par in (getattr(blk, f_, None) or []) for f_ in ("body", "orelse")) else []
+
+            def _slice_of(it_):
+                if isinstance(it_, ast.Name):
+                    d_ = util.single_def(run.node, it_.id)
+                    if isinstance(d_, ast.Subscript) and isinstance(d_.value, ast.Name) and len(util.assignments_to(run.node, d_.value.id)) == 1:
+                        it_ = d_
+                if isinstance(it_, ast.Subscript) and isinstance(it_.slice, ast.Slice) and isinstance(it_.slice.lower, ast.Constant) and it_.slice.upper is None and it_.slice.step is None:
+                    return u(it_.value), it_.slice.lower.value
+                return None
+
+            for sb in sibs:
+                so = _slice_of(sb.iter)
+                body_ok = len(sb.body) == 1 and isinstance(sb.body[0], ast.AugAssign) and isinstance(sb.body[0].op, ast.Add) and isinstance(sb.body[0].value, ast.Constant) and sb.body[0].value.value == 1 and isinstance(sb.target, ast.Name) and u(sb.body[0].target) == "%s[%s]" % (sb.target.id, length) and not sb.orelse
+                wbody_ok = len(par.body) == 1 and not par.orelse
+                if fx is not None and fx[0] is None and so == ("histogram_data", fx[2]) and body_ok and wbody_ok:
+                    ok = True
+                    want = "histogram_data[k][%s] for the same k >= %d (a second loop over histogram_data[%d:])" % (length, fx[2], fx[2])
         ctx.ob(run.qual, "histogram-pairs:%s" % u(w), ok, run.loc(w), "every %s is paired with %s += 1 in the same iteration" % (u(w), want) if ok else "%s is not paired with an increment of the histogram of the output it writes to (%s)" % (u(w), want or "no index paired with the writer"))
     # histogram_data has one counter per output
     hd = util.single_def(run.node, "histogram_data")
